@@ -335,7 +335,7 @@ func ruleEN3(c *Ctx) *rule {
 			ts.depth = 3
 			ts.objFlow = true
 			tres := ts.run(e.Common().Args[0])
-			if tres.hasField("ast.Command.Command") {
+			if tres.hasField("ast.Command.Command") || tres.hasCall("(github.com/FollowTheProcess/spok/ast.Command).Literal") {
 				r.ok(k3, c.ipos(e), "the template is parsed from the command text of the AST")
 			} else {
 				r.bad(k3, c.ipos(e), "the executed template is not parsed from ast.Command.Command")
@@ -378,6 +378,8 @@ func ruleEN3(c *Ctx) *rule {
 					return x.Op == token.MUL && fieldKey(x.X) == "ast.Command.Command"
 				case *ssa.Field:
 					return fieldKey(x) == "ast.Command.Command"
+				case *ssa.Call:
+					return calleeName(x.Common()) == "(github.com/FollowTheProcess/spok/ast.Command).Literal" // PS2: the field itself
 				}
 				return false
 			}
